@@ -76,6 +76,9 @@ pub enum Op {
     /// thread), directly or through a traceparent encode/decode round trip
     RootFromCtx { l: u32, from: usize, via_text: bool },
     Sleep { us: u32 },
+    /// `n` times `span.add_event(Event::new("fill"))`: cheap non-forced commands used to fill the
+    /// thread's command ring; `span` becomes a filler span whose events are not checked
+    Fill { span: u32, n: u32 },
     /// the logical thread's OS thread exits (a fresh one is spawned for its next operation)
     Exit,
     /// create an adapter around a scripted inner object
@@ -112,6 +115,7 @@ impl Op {
             Op::Elapsed { .. } => "elapsed",
             Op::RootFromCtx { .. } => "root_from_ctx",
             Op::Sleep { .. } => "sleep",
+            Op::Fill { .. } => "fill",
             Op::Exit => "thread_exit",
             Op::ANew { .. } => "adapter_new",
             Op::ACall { .. } => "adapter_call",
